@@ -25,7 +25,12 @@ def main():
         summ = re.sub(r"\s+", " ", summ).replace("|", "/")
         if len(summ) > 170: summ = summ[:170] + "…"
         rc = conf.get("quick_check_rc_on_patched_tree")
-        if os.path.exists(os.path.join(d, "note.json")) and conf.get("demo_rc_patched") == 0:
+        note = {}
+        try: note = json.load(open(os.path.join(d, "note.json")))
+        except Exception: pass
+        if note.get("neutralised") and rc == 0:
+            res = "exit 0: behaviourally neutralised by a later fix (note.json)"
+        elif os.path.exists(os.path.join(d, "note.json")) and conf.get("demo_rc_patched") == 0:
             res = "demo passes at HEAD: neutralised by a later fix"
         elif rc == 1: res = "exit 1 (VIOLATION)"
         else: res = "exit %s" % rc
@@ -40,7 +45,7 @@ def main():
         open(p, "w").write(s)
     else:
         open(os.path.join(HERE, "out", "seed_table.md"), "w").write(table)
-    caught = sum(1 for r in rows if "exit 1" in r); neut = sum(1 for r in rows if "neutralised by a later" in r.split("|")[3])
+    caught = sum(1 for r in rows if "exit 1" in r); neut = sum(1 for r in rows if "neutralised by a later" in r.split("|")[3] and "exit 1" not in r.split("|")[3])
     print("%d seeds: %d caught, %d neutralised, %d other" % (len(rows), caught, neut, len(rows) - caught - neut))
     for r in rows:
         if "exit 1" not in r and "neutralised by a later" not in r.split("|")[3]: print("  NOT CAUGHT:", r.split("|")[1].strip(), r.split("|")[3])
